@@ -420,6 +420,11 @@ def is_instance(value: Any, type_: Any) -> bool:
     has been called.
     """
 
+    # NewType may appear at any nesting level (the top level one is already
+    # unwrapped by get_field_types)
+    if is_new_type(type_):
+        type_ = unwrap_newtype(type_)
+
     if type_ == Any:
         return True
 
